@@ -158,6 +158,7 @@ func (g *generator) buildMethod(genMethod *generatedMethod, context map[string]*
 		case method.ArgUseSource:
 			name := ctx.Name("source")
 			sourceID = xtype.VariableID(jen.Id(name))
+			sourceID.Local = true
 			args = append(args, jen.Id(name).Add(arg.Type.TypeAsJen()))
 		case method.ArgUseTarget:
 			name := ctx.Name("target")
